@@ -35,6 +35,7 @@ type Contract struct {
 	LoopInv    map[int][]*Clause
 	LoopMod    map[int][]*Clause
 	Ghost      []*Clause // ghost updates: "ghost at return: x = e" / "ghost at call n: ..."
+	GhostLocal map[string]string // "ghost local name Sort": ghost variables of one activation (no callee can change them)
 	Callback   map[string]*Contract
 	PanicsIf   *Clause
 	PanicsWhen *Clause           // evaluated in the state at the panic site
@@ -324,6 +325,15 @@ func (ss *SpecSet) parse(src, file, pkgPath string, trusted bool) error {
 					curT.GhostZero[f[0]] = true
 				}
 				curT.GhostField[f[0]] = sortAlias(gsort)
+			} else if cur != nil && strings.HasPrefix(strings.TrimSpace(rest), "local ") {
+				f := strings.SplitN(strings.TrimSpace(strings.TrimPrefix(strings.TrimSpace(rest), "local ")), " ", 2)
+				if len(f) != 2 {
+					return fmt.Errorf("%s:%d: ghost local needs name and sort", file, l.no)
+				}
+				if cur.GhostLocal == nil {
+					cur.GhostLocal = map[string]string{}
+				}
+				cur.GhostLocal[f[0]] = sortAlias(strings.TrimSpace(f[1]))
 			} else if cur != nil {
 				// ghost at return: name = expr | ghost at entry: ...
 				j := strings.Index(rest, ":")
@@ -400,7 +410,7 @@ func (ss *SpecSet) parse(src, file, pkgPath string, trusted bool) error {
 					return fmt.Errorf("%s:%d: instantiate T: types", file, l.no)
 				}
 				tp := strings.TrimSpace(rest[:j])
-				for _, t := range strings.Split(rest[j+1:], ",") {
+				for _, t := range splitTopCommas(rest[j+1:]) {
 					cur.Inst[tp] = append(cur.Inst[tp], strings.TrimSpace(t))
 				}
 			case "requires", "ensures", "assert", "assumes":
@@ -615,4 +625,24 @@ func sortAlias(s string) string {
 		return a
 	}
 	return s
+}
+
+// splitTopCommas splits at commas outside brackets
+func splitTopCommas(s string) []string {
+	var out []string
+	depth, start := 0, 0
+	for i, c := range s {
+		switch c {
+		case '[', '(':
+			depth++
+		case ']', ')':
+			depth--
+		case ',':
+			if depth == 0 {
+				out = append(out, s[start:i])
+				start = i + 1
+			}
+		}
+	}
+	return append(out, s[start:])
 }
